@@ -198,7 +198,10 @@ CHECKS = {
                 "the first n bytes of the decoded stream per member; composition (RoundTrip.v): members read = members written. AES "
                 "residue buffering (Aes.v) proved equal to CBC over the padded concatenation for every chunking; the AES methods and "
                 "calculate_crc32 are also machine-translated from the source on every run (coq/gen/AesBuf.v, HelpersCrc.v) and the "
-                "theorems restated over the generated code. Harness: per-call correspondence of the real classes with toy stages against "
+                "theorems restated over the generated code. helpers.read_fully (every header/stream read) is modelled over a file with "
+                "an arbitrary schedule of short reads (ReadFully.v) and proved to return exactly the next n bytes for every schedule and "
+                "block size (C01_read_fully_any_schedule), the model being run against the Python on random schedules on every run. "
+                "Harness: per-call correspondence of the real classes with toy stages against "
                 "the extracted model, contract validation of every codec wrapper, and sandboxed end-to-end sessions over chain x password "
                 "x header mode x target (file, BytesIO, multi-volume) x block size x member shapes.",
         "note": "Trusted: Coq kernel; hand models Comp/Decomp/Aes tied by correspondence, AES buffering and calculate_crc32 additionally by "
